@@ -113,6 +113,8 @@ theorem buildBody_spec (junk : UInt8) (buf : Option Bytes) (data : Bytes) (off t
       · rw [if_pos hc]
         exact ⟨b, rfl, by omega, by intro b' hb' i hi; cases hb'; rfl⟩
       · rw [if_neg hc]
+        have hnl : ¬ (off + data.length < b.length) := by omega
+        simp only [if_neg hnl]
         refine ⟨resizeBin junk b (off + data.length), rfl, ?_, ?_⟩
         · rw [resizeBin_length]; omega
         · intro b' hb' i hi
@@ -150,6 +152,22 @@ theorem chunk_le (szx : Nat) (h : szx ≤ 6) : chunkSize szx ≤ 1024 := by
   have : 2 ^ (szx + 4) ≤ 2 ^ 10 := Nat.pow_le_pow_right (by decide) (by omega)
   omega
 
+/-- the block count of fix 8abfc44 is the rounded-up quotient -/
+theorem totalBlocks_eq (tl c : Nat) (hc : 0 < c) : totalBlocks tl c = (tl + c - 1) / c := by
+  unfold totalBlocks
+  have hdm := Nat.div_add_mod tl c
+  have hml := Nat.mod_lt tl hc
+  have e : tl + c - 1 = c * (tl / c) + (tl % c + c - 1) := by omega
+  rw [e, Nat.mul_add_div hc]
+  congr 1
+  by_cases h0 : tl % c ≠ 0
+  · rw [if_pos h0]
+    exact (Nat.div_eq_of_lt_le (by omega) (by omega)).symm
+  · rw [if_neg h0]
+    have : tl % c = 0 := by omega
+    rw [this]
+    exact (Nat.div_eq_of_lt (by omega)).symm
+
 theorem srcvDecide_spec (cap : Nat) (body : Bytes) (lg1 : Srcv) (m : Nat) (st' : Option Srcv) (out : SrcvOut)
     (hinv : SrcvInv cap body lg1) (hne : lg1.recv ≠ []) (hm : m ≠ 1 → lg1.totalLen = body.length)
     (hlen : body.length < 2 ^ 31)
@@ -162,10 +180,11 @@ theorem srcvDecide_spec (cap : Nat) (body : Bytes) (lg1 : Srcv) (m : Nat) (st' :
   rw [hcs] at h
   -- if the total is complete and everything is in, the buffer is the body
   have hdeliver : lg1.totalLen = body.length →
-      checkAllBlocksIn lg1.recv ((lg1.totalLen + chunkSize lg1.szx - 1) % 2 ^ 32 / chunkSize lg1.szx) = true →
-      lg1.body.getD [] = body := by
+      checkAllBlocksIn lg1.recv (totalBlocks lg1.totalLen (chunkSize lg1.szx)) = true →
+      srcvGive lg1 = SrcvOut.deliver body body.length := by
     intro htl hall
-    rw [Nat.mod_eq_of_lt (by have := hinv.tl; omega), htl] at hall
+    unfold srcvGive
+    rw [totalBlocks_eq _ _ hc, htl] at hall
     have hT : (body.length + chunkSize lg1.szx - 1) / chunkSize lg1.szx = nBlocks body.length lg1.szx := rfl
     rw [hT] at hall
     have hcov := (checkAllBlocksIn_iff lg1.recv _ hinv.wf hne
@@ -177,7 +196,9 @@ theorem srcvDecide_spec (cap : Nat) (body : Bytes) (lg1 : Srcv) (m : Nat) (st' :
       rw [hb] at hbuf
       simp only at hbuf
       obtain ⟨l1, l2⟩ := hbuf
-      simp only [Option.getD_some]
+      simp only
+      rw [htl]
+      congr 1
       apply List.ext_getElem?
       intro i
       by_cases hi : i < body.length
@@ -195,7 +216,7 @@ theorem srcvDecide_spec (cap : Nat) (body : Bytes) (lg1 : Srcv) (m : Nat) (st' :
   by_cases hm1 : m = 1
   · rw [if_pos hm1] at h
     by_cases hcont : ¬ lg1.noMoreSeen = true ∨
-        ¬ checkAllBlocksIn lg1.recv ((lg1.totalLen + chunkSize lg1.szx - 1) % 2 ^ 32 / chunkSize lg1.szx) = true
+        ¬ checkAllBlocksIn lg1.recv (totalBlocks lg1.totalLen (chunkSize lg1.szx)) = true
     · rw [if_pos hcont] at h
       cases h
       exact ⟨fun s' hs => by cases hs; exact hinv, fun b l hb => by cases hb⟩
@@ -205,17 +226,18 @@ theorem srcvDecide_spec (cap : Nat) (body : Bytes) (lg1 : Srcv) (m : Nat) (st' :
         cases hx : lg1.noMoreSeen with
         | true => rfl
         | false => exact (hcont (Or.inl (by rw [hx]; decide))).elim
-      have h2 : checkAllBlocksIn lg1.recv ((lg1.totalLen + chunkSize lg1.szx - 1) % 2 ^ 32 / chunkSize lg1.szx) = true := by
-        cases hx : checkAllBlocksIn lg1.recv ((lg1.totalLen + chunkSize lg1.szx - 1) % 2 ^ 32 / chunkSize lg1.szx) with
+      have h2 : checkAllBlocksIn lg1.recv (totalBlocks lg1.totalLen (chunkSize lg1.szx)) = true := by
+        cases hx : checkAllBlocksIn lg1.recv (totalBlocks lg1.totalLen (chunkSize lg1.szx)) with
         | true => rfl
         | false => exact (hcont (Or.inr (by rw [hx]; decide))).elim
       have htl := hinv.nms h1
       refine ⟨(fun s' hs => by cases hs), fun b l hb => ?_⟩
+      rw [hdeliver htl h2] at hb
       cases hb
-      exact ⟨hdeliver htl h2, htl, rfl⟩
+      exact ⟨rfl, rfl, rfl⟩
   · rw [if_neg hm1] at h
     have htl := hm hm1
-    by_cases hall : ¬ checkAllBlocksIn lg1.recv ((lg1.totalLen + chunkSize lg1.szx - 1) % 2 ^ 32 / chunkSize lg1.szx) = true
+    by_cases hall : ¬ checkAllBlocksIn lg1.recv (totalBlocks lg1.totalLen (chunkSize lg1.szx)) = true
     · rw [if_pos hall] at h
       cases h
       refine ⟨fun s' hs => ?_, fun b l hb => by cases hb⟩
@@ -224,13 +246,14 @@ theorem srcvDecide_spec (cap : Nat) (body : Bytes) (lg1 : Srcv) (m : Nat) (st' :
               buf := hinv.buf, nms := fun _ => htl, szxle := hinv.szxle }
     · rw [if_neg hall] at h
       cases h
-      have h2 : checkAllBlocksIn lg1.recv ((lg1.totalLen + chunkSize lg1.szx - 1) % 2 ^ 32 / chunkSize lg1.szx) = true := by
-        cases hx : checkAllBlocksIn lg1.recv ((lg1.totalLen + chunkSize lg1.szx - 1) % 2 ^ 32 / chunkSize lg1.szx) with
+      have h2 : checkAllBlocksIn lg1.recv (totalBlocks lg1.totalLen (chunkSize lg1.szx)) = true := by
+        cases hx : checkAllBlocksIn lg1.recv (totalBlocks lg1.totalLen (chunkSize lg1.szx)) with
         | true => rfl
         | false => exact (hall (by rw [hx]; decide)).elim
       refine ⟨(fun s' hs => by cases hs), fun b l hb => ?_⟩
+      rw [hdeliver htl h2] at hb
       cases hb
-      exact ⟨hdeliver htl h2, htl, rfl⟩
+      exact ⟨rfl, rfl, rfl⟩
 
 
 theorem window_facts (C n cnt D q len off : Nat) (hC : 0 < C) (hoff : off = n * C) (hD1 : 0 < D)
@@ -286,6 +309,19 @@ theorem srcvCore_spec (cap : Nat) (junk : UInt8) (body : Bytes) (lg : Srcv) (n m
   unfold srcvCore at h
   dsimp only at h
   rw [hcs, hcnt] at h
+  -- a genuine block passes the last-block test of fix cb35487
+  have hguard : ¬ ((data.length % chunkSize lg.szx ≠ 0 ∧ offset + data.length < lg.totalLen) ∨
+      (lg.noMoreSeen = true ∧ offset + data.length > lg.totalLen)) := by
+    intro hg
+    have htl := hinv.tl
+    rcases hg with ⟨g1, g2⟩ | ⟨g1, g2⟩
+    · by_cases hfull : data.length = q * chunkSize lg.szx
+      · rw [hfull, Nat.mul_mod_left] at g1
+        exact g1 rfl
+      · omega
+    · have := hinv.nms g1
+      omega
+  rw [if_neg hguard] at h
   cases hloop : recvLoop cap (nBlocks data.length lg.szx) lg.recv n false with
   | none =>
     rw [hloop] at h
@@ -519,6 +555,7 @@ theorem srcvStep_spec (cap : Nat) (junk : UInt8) (maxBlk : Nat) (body : Bytes) (
       rw [hnw] at h
       exact key h
     · rw [if_neg hbig] at h
+      rw [if_neg (by omega : ¬ d.szx < lg.szx)] at h
       have he : d.szx = lg.szx := by omega
       have h0 : d.num * 2 ^ (d.szx - lg.szx) = d.num := by rw [he]; simp
       rw [h0] at key
